@@ -94,7 +94,7 @@ MaskConst(ty, n) == IF ty.sc THEN CSimple(IF n % 2 = 0 THEN "zero" ELSE "undef",
 \* constant for operand k of case c (op: the operand record)
 SlotConst(c, op, k) ==
   CASE op.slot = "Mask" -> MaskConst(op.ty, k)
-    [] op.slot = "Indices" -> CInt(op.ty, op.i - 1)
+    [] op.slot = "Indices" -> CInt(op.ty, IF op.cv >= 0 THEN op.cv ELSE 0)
     [] op.slot = "Index" -> CInt(op.ty, 1)
     [] OTHER -> ConstOf(op.ty, op.i)
 
@@ -155,7 +155,7 @@ NoFn == Fn("", TyVoid, <<>>, FALSE, <<>>)
 CountTo(ops, k, src) == Cardinality({j \in 1..k : ops[j].src = src})
 AnyOps(ops) == SelectSeq(ops, LAMBDA o : o.src = "any")
 
-CaseId(c) == c.cat \o ":" \o c.kind \o "/" \o c.fam \o "/" \o c.cls \o "/" \o ToString(c.cfg.cnt) \o ToString(c.cfg.bund)
+CaseId(c) == c.cat \o ":" \o c.kind \o "/" \o c.fam \o "/" \o c.cls \o "/" \o ToString(c.cfg.cnt) \o ToString(c.cfg.bund) \o ToString(c.idx)
              \o "/" \o ToString(c.flags) \o "/" \o ToString(c.attrs) \o (IF c.named THEN "/n" ELSE "/u") \o (IF c.wrap THEN "/w" ELSE "")
 
 \* callbr: the callee is inline asm and every indirect destination must be passed as a blockaddress argument
@@ -304,7 +304,7 @@ ModuleProgs == <<
 
 CoverKinds == Kinds \o CExprs
 \* the config family is exercised by C15; C03 replays it as well (every repetition count prints validly)
-CoverCases(e) == {c \in Cases(e) : c.fam # "wrap" /\ CallbrOK(c) /\ ~(c.kind = "callbr" /\ c.cfg.bund # <<>> /\ Len(c.cfg.bund) > 1)}
+CoverCases(e) == {c \in Cases(e) : c.fam \notin {"wrap", "alias"} /\ CallbrOK(c) /\ ~(c.kind = "callbr" /\ c.cfg.bund # <<>> /\ Len(c.cfg.bund) > 1)}
 CoverProg(c) == IF c.cat = "cexpr" THEN CExprProg(c) ELSE Scaffold(c)
 
 ----------------------------------------------------------------------------
@@ -518,7 +518,7 @@ MixSources(op, pos) ==
 RECURSIVE MixVals(_, _)
 MixVals(ops, pos) == IF pos > Len(ops) THEN {<<>>}
                      ELSE {<<v>> \o rest : v \in MixSources(ops[pos], pos), rest \in MixVals(ops, pos + 1)}
-MixCases(e) == {c \in Cases(e) : c.fam \in {"class", "variant", "flags"} /\ c.cfg.bund = <<>>}
+MixCases(e) == {c \in Cases(e) : c.fam \in {"class", "variant", "flags", "path"} /\ c.cfg.bund = <<>>}
 MixSteps ==
   LET n == Len(env) + 1
       ki == RandomElement(MixKinds)
